@@ -134,7 +134,10 @@ func (c *Chan) Entry() (IteratorEntry, bool) {
 }
 
 func (c *Chan) Iter() Iterator {
-	return c
+	// Each iteration gets its own iterator state (last received value and
+	// count) on top of the shared Go channel, so that several goroutines can
+	// range over the same channel without disturbing each other.
+	return &Chan{value: c.value, capacity: c.capacity}
 }
 
 func (c *Chan) Send(ctx context.Context, value Object) (err error) {
